@@ -1,8 +1,8 @@
 #!/bin/bash
 # dev helper: build + run one worker batch: run1.sh PROP COUNT [SEED]
 export GOFLAGS=-mod=mod GOPROXY=off GOSUMDB=off GOTOOLCHAIN=local
-cd /verif/sim && go1.26.8 test -c -tags "verif stdjson gjson" -o /verif/bin/sim.test ./worker || exit 2
-cd /verif/.scratch && VSIM_MODE=explore VSIM_PROP=$1 VSIM_SEED=${3:-1} VSIM_COUNT=$2 VSIM_OUT=/verif/.scratch/r.json /verif/bin/sim.test -test.run '^TestSim$' -test.timeout 0 || exit $?
+cd /verif/sim && go1.26.8 test -c -tags "verif stdjson gjson" -o /verif/bin/sim.dev.test ./worker || exit 2
+cd /verif/.scratch && VSIM_MODE=explore VSIM_PROP=$1 VSIM_SEED=${3:-1} VSIM_COUNT=$2 VSIM_OUT=/verif/.scratch/r.json /verif/bin/sim.dev.test -test.run '^TestSim$' -test.timeout 0 || exit $?
 python3 -c "
 import json
 r=json.load(open('/verif/.scratch/r.json'))
